@@ -71,7 +71,7 @@ Proof.
       * unfold v_tid. destruct (is_active _); [|exact I]. right. change (has_flag 0 PRV_NEXT) with false. cbn iota.
         apply (os_ids _ O). apply nth_In. exact Sh.
       * unfold v_state. right. change (has_flag PRV_SKIPDUP PRV_NEXT) with false. cbn iota.
-        destruct (t_state (nth t (threads st1) dummy_thread)) eqn:Es; cbn; try lia.
+        destruct (t_state (nth t (threads st1) dummy_thread)) eqn:Es; cbn [tst_code]; try lia.
         exfalso. apply Hr. cbn [view]. unfold v_state. rewrite Es. now rewrite (HU t Es).
   - (* tracked thread rows *)
     destruct Sh as [_ Hk]. cbn [view flags_of]. apply safe_good; [now apply spec_safe_of|].
@@ -426,7 +426,7 @@ Proof.
 Qed.
 
 Lemma nth_error_map_const {A B} (l : list A) (b : B) n x : nth_error (map (fun _ => b) l) n = Some x -> x = b.
-Proof. revert n. induction l as [|a l IH]; intros [|n] H; cbn in H; try discriminate; [now injection H|eauto]. Qed.
+Proof. revert n. induction l as [|a l IH]; intros [|n] H; cbn [map nth_error] in H; try discriminate; [now injection H|eauto]. Qed.
 
 Lemma MSim_init sx ms kf spf : MStatic sx ms -> FlushAt sx kf spf -> MSim sx kf (init sx) (mscan0 sx).
 Proof.
@@ -445,7 +445,7 @@ Proof.
     + assert (E : nth t (map (fun _ : thread_info => init_thread sx) (s_threads sx)) dummy_thread = dummy_thread)
         by (apply nth_overflow; rewrite map_length; exact Ht).
       rewrite E. cbn [dummy_thread t_raw].
-      replace (nth k [] empty_raw) with empty_raw by (now destruct k). split; cbn; [constructor|reflexivity].
+      replace (nth k [] empty_raw) with empty_raw by (now destruct k). split; cbn [empty_raw r_stk r_val nzv]; [constructor|reflexivity].
   - intros t th Hn. cbn [init threads] in Hn. apply nth_error_map_const in Hn. subst th. cbn [init_thread t_raw mscan0 m_fl m_stk].
     split; [now rewrite map_length|split].
     + intros k sp Hk. rewrite (Hraw k sp Hk). cbn [r_stk]. now destruct (is_mstack sp).
@@ -954,5 +954,60 @@ Proof.
   apply in_or_app. right. apply in_map. apply nil_in_sublists.
 Qed.
 
-Print Assumptions core_accepts_multi.
-Print Assumptions conformant_accepted.
+
+(* ================================================================ the mark types the emulator builds from the metadata *)
+
+(* whatever the threads declared, the merged list (mark.c: mark_create) has distinct types in 0..99:
+   the hypotheses on ms of conformant_accepted hold for every ms the emulator accepts *)
+Lemma find_mt_none l t : find_mt l t = None -> ~ In t (map mt_type l).
+Proof.
+  induction l as [|d l IH]; cbn [find_mt map In]; [tauto|]. destruct (mt_type d =? t) eqn:E; [discriminate|].
+  intros H [H1|H1]; [apply Z.eqb_neq in E; contradiction|now apply IH].
+Qed.
+
+Lemma find_mt_some l t m : find_mt l t = Some m -> mt_type m = t /\ In m l.
+Proof.
+  induction l as [|d l IH]; cbn [find_mt In]; [discriminate|]. destruct (mt_type d =? t) eqn:E.
+  - intros H. injection H as <-. apply Z.eqb_eq in E. split; [exact E|now left].
+  - intros H. destruct (IH H). split; [assumption|now right].
+Qed.
+
+Lemma replace_mt_types l m : map mt_type (replace_mt l m) = map mt_type l.
+Proof.
+  induction l as [|d l IH]; cbn [replace_mt map]; [reflexivity|]. destruct (mt_type d =? mt_type m) eqn:E; cbn [map].
+  - apply Z.eqb_eq in E. now rewrite E.
+  - now rewrite IH.
+Qed.
+
+Definition types_fine (l : list mtype) : Prop := NoDup (map mt_type l) /\ forall t, In t (map mt_type l) -> 0 <= t < 100.
+
+Lemma merge_def_types acc d acc' : merge_def acc d = Some acc' -> types_fine acc -> types_fine acc'.
+Proof.
+  unfold merge_def. intros H [Nd Hb].
+  destruct ((md_type d <? 0) || (100 <=? md_type d)) eqn:Er; [discriminate H|].
+  apply orb_false_elim in Er as [E1 E2]. apply Z.ltb_ge in E1. apply Z.leb_gt in E2.
+  destruct (find_mt acc (md_type d)) as [m|] eqn:Ef.
+  - destruct (negb (str_eqb (mt_title m) (md_title d))); [discriminate H|].
+    destruct (negb (Bool.eqb (mt_stack m) (md_stack d))); [discriminate H|].
+    destruct (merge_labels (mt_labels m) (md_labels d)) as [ls|]; [|discriminate H]. injection H as <-.
+    unfold types_fine. rewrite replace_mt_types. now split.
+  - destruct (merge_labels [] (md_labels d)) as [ls|]; [|discriminate H]. injection H as <-.
+    unfold types_fine. rewrite map_app. cbn [map mt_type]. split.
+    + apply NoDup_app_disjoint; [exact Nd|repeat constructor; intros []|].
+      intros b Hb1 [<-|[]]. now apply (find_mt_none acc (md_type d) Ef).
+    + intros t Ht. apply in_app_or in Ht as [Ht|[<-|[]]]; [now apply Hb|lia].
+Qed.
+
+Lemma merge_defs_types ds : forall acc ms, merge_defs acc ds = Some ms -> types_fine acc -> types_fine ms.
+Proof.
+  induction ds as [|d ds IH]; intros acc ms H F; cbn [merge_defs] in H; [now injection H as <-|].
+  destruct (merge_def acc d) as [acc'|] eqn:E; [|discriminate H]. exact (IH acc' ms H (merge_def_types acc d acc' E F)).
+Qed.
+
+Theorem merged_mark_types_fine ths ms :
+  merge_threads ths = Some ms -> NoDup (map mt_type ms) /\ forall m, In m ms -> 0 <= mt_type m.
+Proof.
+  intros H. destruct (merge_defs_types (concat ths) [] ms H) as [Nd Hb].
+  - split; [constructor|intros t []].
+  - split; [exact Nd|]. intros m Hm. apply (Hb (mt_type m)). now apply in_map.
+Qed.
